@@ -18,10 +18,11 @@ def decoded_publish(r: Ref['mqtt.pdu.PUBLISH']) -> bool:
 @contract('mqtt.client.pubsubs.MQTTProtocol.handlePUBLISH', props=['C06', 'C16', 'C18', 'C02'])
 def _(self: Ref['mqtt.client.pubsubs.MQTTProtocol'], response: Ref['mqtt.pdu.PUBLISH']):
     requires(is_obj(self.addr))
-    requires(live(self))
+    requires(live(self) and ping_ok(self))
     requires(decoded_publish(response))
     modifies(all_but(KEEP), callbacks())
     ensures(live(self))
+    ensures(ping_untouched_by_handler(self))
     # QoS 0: delivered once, nothing written
     ensures(implies(response.qos == 0, out(self) == old(out(self))))
     # QoS 1: exactly one PUBACK echoing the identifier, delivered once
@@ -40,13 +41,14 @@ def _(self: Ref['mqtt.client.pubsubs.MQTTProtocol'], response: Ref['mqtt.pdu.PUB
 @contract('mqtt.client.pubsubs.MQTTProtocol.handlePUBREL', props=['C06', 'C16', 'C18', 'C02'])
 def _(self: Ref['mqtt.client.pubsubs.MQTTProtocol'], response: Ref['mqtt.pdu.PUBREL']):
     requires(is_obj(self.addr))
-    requires(live(self))
+    requires(live(self) and ping_ok(self))
     requires(is_int(response.msgId) and 0 <= response.msgId <= 65535)
     id = as_int(response.msgId)
     hit = contains(X(self), id)
     msg = X(self)[id]
     modifies(all_but(KEEP), callbacks())
     ensures(live(self))
+    ensures(ping_untouched_by_handler(self))
     # every PUBREL, first or repeated, is answered by exactly one PUBCOMP echoing the identifier
     ensures(out(self) == old(out(self)) + lb(sPUBCOMP(id)))
     # the held message is delivered exactly when it is released, and then forgotten
